@@ -104,30 +104,115 @@ pub open spec fn is_line(f: Seq<u8>, beg: int, end: int) -> bool {
 }
 /// every part holds the true bytes of its block (so the line's bytes are the file's bytes in [beg, end])
 pub open spec fn part_true(f: Seq<u8>, bs: int, lp: LinePart) -> bool { lp_wf(lp) && lp.blocksz as int == bs && lp.blockp@ == fblock(f, bs, lp.blockoffset as int) }
-pub open spec fn line_true(f: Seq<u8>, bs: int, l: Line) -> bool {
-    &&& l.lineparts@.len() >= 1
-    &&& forall|i: int| 0 <= i < l.lineparts@.len() ==> part_true(f, bs, #[trigger] l.lineparts@[i])
-    &&& forall|i: int| 0 <= i < l.lineparts@.len() - 1 ==> (#[trigger] l.lineparts@[i + 1]).fileoffset as int == l.lineparts@[i].fileoffset as int + lp_len(l.lineparts@[i])
+/// parts that follow one another in the file without gap or overlap, each holding its block's own bytes
+pub open spec fn parts_true(f: Seq<u8>, bs: int, s: Seq<LinePart>) -> bool {
+    &&& s.len() >= 1
+    &&& forall|i: int| 0 <= i < s.len() ==> part_true(f, bs, #[trigger] s[i])
+    &&& forall|i: int| 0 <= i < s.len() - 1 ==> (#[trigger] s[i + 1]).fileoffset as int == s[i].fileoffset as int + lp_len(s[i])
 }
-pub open spec fn l_beg(l: Line) -> int { l.lineparts@[0].fileoffset as int }
-pub open spec fn l_end(l: Line) -> int { l.lineparts@.last().fileoffset as int + lp_len(l.lineparts@.last()) - 1 }
+pub open spec fn line_true(f: Seq<u8>, bs: int, l: Line) -> bool { parts_true(f, bs, l.lineparts@) }
+pub open spec fn s_beg(s: Seq<LinePart>) -> int { s[0].fileoffset as int }
+pub open spec fn s_end(s: Seq<LinePart>) -> int { s.last().fileoffset as int + lp_len(s.last()) - 1 }
+pub open spec fn l_beg(l: Line) -> int { s_beg(l.lineparts@) }
+pub open spec fn l_end(l: Line) -> int { s_end(l.lineparts@) }
 /// e is where the line that contains fo ends
 pub open spec fn is_endpoint(f: Seq<u8>, fo: int, e: int) -> bool { fo <= e < f.len() && no_nl(f, fo, e) && (f[e] == 10u8 || e == f.len() - 1) }
 /// b is where the line that contains fo begins
 pub open spec fn is_startpoint(f: Seq<u8>, fo: int, b: int) -> bool { 0 <= b <= fo && no_nl(f, b, fo) && (b == 0 || f[b - 1] == 10u8) }
-/// the parts collected for the blocks after the one that holds the offset: true, contiguous, starting at that block's end, ending at e
-pub open spec fn tail_ok(l: Line, f: Seq<u8>, bs: int, bo_m: int, e: int) -> bool {
-    &&& forall|i: int| 0 <= i < l.lineparts@.len() ==> part_true(f, bs, #[trigger] l.lineparts@[i]) && l.lineparts@[i].blockoffset as int == bo_m + 1 + i
-            && l.lineparts@[i].fileoffset as int == (bo_m + 1 + i) * bs
-    &&& forall|i: int| 0 <= i < l.lineparts@.len() - 1 ==> lp_len(#[trigger] l.lineparts@[i]) == bs
-    &&& l.lineparts@.len() > 0 ==> l_end(l) == e
+/// the parts collected for the blocks after the one that holds the offset: part i is the head of block bo_m+1+i
+pub open spec fn tail_parts(l: Seq<LinePart>, f: Seq<u8>, bs: int, bo_m: int) -> bool {
+    forall|i: int| 0 <= i < l.len() ==> part_true(f, bs, #[trigger] l[i]) && l[i].blockoffset as int == bo_m + 1 + i
+            && l[i].fileoffset as int == (bo_m + 1 + i) * bs && l[i].blocki_beg == 0 && (l[i].fileoffset as int) < f.len()
+}
+/// ... the first n of them a whole block each
+pub open spec fn tail_whole(l: Seq<LinePart>, bs: int, n: int) -> bool {
+    forall|i: int| 0 <= i < n && i < l.len() ==> (#[trigger] l[i]).blocki_end as int == bs
+}
+/// constant facts about the reader during one call
+pub open spec fn ctx(s: &LineReader, s0: &LineReader, f: Seq<u8>, bs: int, fsz: int) -> bool {
+    s.same(s0) && s.lines == s0.lines && s.wf() && f == s.f() && bs == s.bs() && fsz == f.len() && bs >= 1 && fsz + bs < u64::MAX && s.charsz_ == 1
+}
+/// min(bo * bs, fsz): how far the first `bo` blocks reach
+pub open spec fn upto(bo: int, bs: int, fsz: int) -> int { if bo * bs < fsz { bo * bs } else { fsz } }
+/// after the forward phase: e is the last byte of the line, the parts after the middle block are in place
+pub open spec fn fwd_done(l: Seq<LinePart>, f: Seq<u8>, bs: int, bo_m: int, fo: int, e: int, bi_middle_end: int, nl_b_eof: bool) -> bool {
+    &&& is_endpoint(f, fo, e)
+    &&& (nl_b_eof ==> e == f.len() - 1) && (!nl_b_eof ==> f[e] == 10u8)
+    &&& tail_parts(l, f, bs, bo_m) && tail_whole(l, bs, l.len() - 1)
+    &&& l.len() == 0 ==> e == bo_m * bs + bi_middle_end
+    &&& l.len() > 0 ==> bo_m * bs + bi_middle_end + 1 == (bo_m + 1) * bs && s_end(l) == e
 }
 /// C12 / C02: the Line is the line of the file around `fo`
 pub open spec fn good_line(f: Seq<u8>, bs: int, l: Line, fo: int) -> bool {
     line_true(f, bs, l) && is_line(f, l_beg(l), l_end(l)) && l_beg(l) <= fo <= l_end(l)
 }
-
-
+/// a part that ends where the sequence begins goes in front of it
+pub proof fn lemma_prepend(p: LinePart, s: Seq<LinePart>, f: Seq<u8>, bs: int)
+    requires parts_true(f, bs, s), part_true(f, bs, p), p.fileoffset as int + lp_len(p) == s[0].fileoffset as int
+    ensures parts_true(f, bs, s.insert(0, p)), s_end(s.insert(0, p)) == s_end(s), s_beg(s.insert(0, p)) == p.fileoffset as int
+{
+    let t = s.insert(0, p);
+    assert(t[0] == p);
+    assert forall|i: int| 0 <= i < t.len() implies part_true(f, bs, #[trigger] t[i]) by { if i > 0 { assert(t[i] == s[i - 1]); } }
+    assert forall|i: int| 0 <= i < t.len() - 1 implies (#[trigger] t[i + 1]).fileoffset as int == t[i].fileoffset as int + lp_len(t[i]) by {
+        assert(t[i + 1] == s[i]);
+        if i > 0 { assert(t[i] == s[i - 1]); assert(s[(i - 1) + 1].fileoffset as int == s[i - 1].fileoffset as int + lp_len(s[i - 1])); }
+    }
+    assert(t.last() == s.last());
+}
+/// the part of the middle block goes in front of the parts of the blocks after it
+pub proof fn lemma_mid(mid: LinePart, tail: Seq<LinePart>, f: Seq<u8>, bs: int, bo_m: int, fo: int, e: int, bi_middle_end: int, nl_b_eof: bool)
+    requires
+        fwd_done(tail, f, bs, bo_m, fo, e, bi_middle_end, nl_b_eof), part_true(f, bs, mid), mid.blockoffset as int == bo_m,
+        mid.blocki_end as int == bi_middle_end + 1, bs >= 1, bo_m >= 0,
+    ensures
+        parts_true(f, bs, tail.insert(0, mid)), s_end(tail.insert(0, mid)) == e, s_beg(tail.insert(0, mid)) == mid.fileoffset as int,
+{
+    lemma_offs(mid.fileoffset as int, bs);
+    assert(mid.fileoffset as int == bo_m * bs + mid.blocki_beg);
+    let t = tail.insert(0, mid);
+    assert(t[0] == mid);
+    if tail.len() == 0 {
+        assert(t.len() == 1);
+        assert(t.last() == mid);
+    } else {
+        assert(parts_true(f, bs, tail)) by {
+            assert forall|i: int| 0 <= i < tail.len() - 1 implies (#[trigger] tail[i + 1]).fileoffset as int == tail[i].fileoffset as int + lp_len(tail[i]) by {
+                assert((bo_m + 1 + (i + 1)) * bs == (bo_m + 1 + i) * bs + bs) by (nonlinear_arith);
+                assert(tail[i].blocki_end as int == bs);
+            }
+        }
+        assert(tail[0].fileoffset as int == (bo_m + 1 + 0) * bs);
+        lemma_prepend(mid, tail, f, bs);
+    }
+}
+/// a block at or before the last one starts inside the file
+pub proof fn lemma_in_file(f: Seq<u8>, bs: int, bo: int)
+    requires bs >= 1, 0 <= bo <= sp_last(f.len() as int, bs), f.len() > 0
+    ensures bo * bs < f.len()
+{
+    let n = f.len() as int;
+    let last = sp_last(n, bs);
+    lemma_fundamental_div_mod(n, bs);
+    lemma_mod_bound(n, bs);
+    assert(bs * (n / bs) == (n / bs) * bs) by (nonlinear_arith);
+    assert(last * bs < n) by {
+        if n % bs > 0 { assert(last == n / bs); } else { assert(last == n / bs - 1); assert((n / bs - 1) * bs == (n / bs) * bs - bs) by (nonlinear_arith); }
+    }
+    assert(bo * bs <= last * bs) by (nonlinear_arith) requires bo <= last, bs >= 1;
+}
+/// nothing of the file lies beyond the last block
+pub proof fn lemma_upto_end(f: Seq<u8>, bs: int)
+    requires bs >= 1, f.len() > 0
+    ensures upto(sp_last(f.len() as int, bs) + 1, bs, f.len() as int) == f.len()
+{
+    let n = f.len() as int;
+    let last = sp_last(n, bs);
+    lemma_fundamental_div_mod(n, bs);
+    lemma_mod_bound(n, bs);
+    assert(bs * (n / bs) == (n / bs) * bs) by (nonlinear_arith);
+    if n % bs > 0 { assert((n / bs + 1) * bs == (n / bs) * bs + bs) by (nonlinear_arith); }
+}
 /// block `bo` of the file: its length, its bytes, and where it sits among the blocks
 pub proof fn lemma_block(f: Seq<u8>, bs: int, bo: int)
     requires bs >= 1, bo >= 0, bo * bs < f.len()
@@ -273,7 +358,7 @@ impl LineReader {
         ensures *r == line, final(self).same(old(self)),
     { unimplemented!() }
 
-//@cut fn path=src/readers/linereader.rs impl=LineReader name=find_line ret=r
+//@cut fn path=src/readers/linereader.rs impl=LineReader name=find_line ret=r rlimit=400
 //@replace "pub fn find_line" "#[verifier::exec_allows_no_decreases_clause] pub fn find_line"
 //@replace "self.find_line_lru_cache_put += 1;" "verif_count_inc(&mut self.find_line_lru_cache_put);" count=*
 //@replace "self.lines_hits += 1;" "verif_count_inc(&mut self.lines_hits);"
@@ -304,7 +389,7 @@ impl LineReader {
                     bi_middle <= bi_at < bi_stop, !found_nl_b, bi_middle_end == bi_middle, !fo_nl_b_in_middle,
                     no_nl(f, fileoffset as int, mbase + bi_at),
                 invariant
-                    self.same(&sp0), f == self.f(), bs == self.bs(), fsz == f.len(), bs >= 1, fsz + bs < u64::MAX, charsz_bi == 1,
+                    ctx(self, &sp0, f, bs, fsz), charsz_bi == 1,
                     bptr_middle@ == fblock(f, bs, bo_middle as int), bi_stop == bptr_middle@.len(), mbase == bo_middle as int * bs, mbase + bi_middle == fileoffset,
                     mbase + bi_stop <= fsz, mbase >= 0,
                     forall|i: int| 0 <= i < bptr_middle@.len() ==> #[trigger] bptr_middle@[i] == f[mbase + i],
@@ -314,12 +399,209 @@ impl LineReader {
                     found_nl_b ==> bi_at < bi_stop && f[mbase + bi_at] == 10u8 && no_nl(f, fileoffset as int, mbase + bi_at) && fo_nl_b as int == mbase + bi_at && bi_middle_end == bi_at && fo_nl_b_in_middle,
                     !found_nl_b ==> bi_at == bi_stop && no_nl(f, fileoffset as int, mbase + bi_stop) && bi_middle_end == bi_middle && !fo_nl_b_in_middle,
                 decreases bi_stop - bi_at,
+//@before "if !found_nl_b && bo_middle == blockoffset_last {"
+            proof { lemma_block(f, bs, bo_middle as int); }
+//@before "let BI_UNINIT: BlockIndex = usize::MAX;"
+            proof {
+                lemma_block(f, bs, bo_middle as int);
+                assert(bo_middle < blockoffset_last);
+                assert(upto(bo_middle as int + 1, bs, fsz) == mbase + bs);
+            }
+//@loop 2
+                invariant_except_break
+                    !found_nl_b, !nl_b_eof,
+                    no_nl(f, fileoffset as int, upto(bof as int, bs, fsz)),
+                    line.lineparts@.len() == bof - bo_middle - 1,
+                    tail_whole(line.lineparts@, bs, line.lineparts@.len() - 1),
+                    bof > bo_middle + 1 ==> bi_beg == bi_end && bi_end as int == fblock(f, bs, bof - 1).len() && line.lineparts@.last().blocki_end == bi_end,
+                    bof == blockoffset_last + 1 ==> upto(bof as int, bs, fsz) == fsz,
+                invariant
+                    ctx(self, &sp0, f, bs, fsz), sp0.same(old(self)), charsz_bi == 1, charsz_fo == 1, blockoffset_last as int == sp_last(fsz, bs), filesz == fsz, fsz > 0,
+                    bo_middle < bof <= blockoffset_last + 1, bo_middle < blockoffset_last, mbase == bo_middle as int * bs, mbase + bi_middle == fileoffset, fileoffset < fsz,
+                    (bo_middle as int + 1) * bs == mbase + bs,
+                    !fo_nl_b_in_middle, bi_middle_end as int == bs - 1, bi_middle < bs,
+                    tail_parts(line.lineparts@, f, bs, bo_middle as int),
+                    BI_UNINIT == usize::MAX,
+                ensures
+                    found_nl_b ==> fwd_done(line.lineparts@, f, bs, bo_middle as int, fileoffset as int, fo_nl_b as int, bi_middle_end as int, nl_b_eof) && !nl_b_eof && line.lineparts@.len() > 0,
+                    !found_nl_b ==> bof == blockoffset_last + 1 && no_nl(f, fileoffset as int, fsz) && bi_beg == bi_end && bi_end as int == fblock(f, bs, blockoffset_last as int).len()
+                        && line.lineparts@.len() == bof - bo_middle - 1 && line.lineparts@.len() > 0 && line.lineparts@.last().blocki_end == bi_end
+                        && tail_whole(line.lineparts@, bs, line.lineparts@.len() - 1) && !nl_b_eof,
+                decreases blockoffset_last + 1 - bof,
+//@before "let bptr: BlockP = match self"
+                proof {
+                    lemma_in_file(f, bs, bof as int); lemma_block(f, bs, bof as int); lemma_split(bof as int, 0, bs);
+                    // the part appended in the previous round is a whole block: its block is before the last one
+                    if bof > bo_middle + 1 { lemma_in_file(f, bs, bof - 1); lemma_block(f, bs, bof - 1); }
+                }
+//@after "bi_end = (*bptr).len() as BlockIndex;"
+                let ghost bbase = bof as int * bs;
+                let ghost line0 = line.lineparts@;
+                proof {
+                    assert(tail_whole(line0, bs, line0.len() as int)); assert(upto(bof as int, bs, fsz) == bbase);
+                    assert((bo_middle as int + 1) * bs <= bof as int * bs) by (nonlinear_arith) requires bo_middle as int + 1 <= bof as int, bs >= 1;
+                }
+//@loop 3
+                    invariant_except_break
+                        !found_nl_b, bi_beg < bi_end,
+                        no_nl(f, fileoffset as int, bbase + bi_beg),
+                    invariant
+                        ctx(self, &sp0, f, bs, fsz), charsz_bi == 1, bptr@ == fblock(f, bs, bof as int), bi_end == bptr@.len(), bbase == bof as int * bs,
+                        bbase + bi_end <= fsz, bbase >= 0, bi_end <= bs, fileoffset as int <= bbase, !nl_b_eof, !fo_nl_b_in_middle,
+                        forall|i: int| 0 <= i < bptr@.len() ==> #[trigger] bptr@[i] == f[bbase + i],
+                        (bbase) / bs == bof as int, (bbase) % bs == 0, (bof as int + 1) * bs == bbase + bs,
+                        line.lineparts@ == line0 || found_nl_b,
+                        line0.len() == bof - bo_middle - 1, tail_parts(line0, f, bs, bo_middle as int), tail_whole(line0, bs, line0.len() as int),
+                        line0.len() > 0 ==> line0.last().blockoffset < bof && line0.last().fileoffset < bbase,
+                        bo_middle < bof <= blockoffset_last, mbase == bo_middle as int * bs, bi_middle_end as int == bs - 1, (bo_middle as int + 1) * bs == mbase + bs,
+                    ensures
+                        found_nl_b ==> fwd_done(line.lineparts@, f, bs, bo_middle as int, fileoffset as int, fo_nl_b as int, bi_middle_end as int, nl_b_eof) && line.lineparts@.len() > 0,
+                        !found_nl_b ==> bi_beg == bi_end && no_nl(f, fileoffset as int, bbase + bi_end) && line.lineparts@ == line0,
+                    decreases bi_end - bi_beg,
+//@after "line.append(li);" 1
+                        proof {
+                            let l = line.lineparts@;
+                            assert(l == line0.push(l.last()));
+                            assert forall|i: int| 0 <= i < l.len() implies part_true(f, bs, #[trigger] l[i]) && l[i].blockoffset as int == bo_middle + 1 + i
+                                && l[i].fileoffset as int == (bo_middle + 1 + i) * bs && l[i].blocki_beg == 0 && (l[i].fileoffset as int) < f.len() by { if i < line0.len() { assert(l[i] == line0[i]); } }
+                            assert forall|i: int| 0 <= i < l.len() - 1 && i < l.len() implies (#[trigger] l[i]).blocki_end as int == bs by { assert(l[i] == line0[i]); }
+                        }
+//@after "line.append(li);" 2
+                proof {
+                    let l = line.lineparts@;
+                    assert(l == line0.push(l.last()));
+                    assert forall|i: int| 0 <= i < l.len() implies part_true(f, bs, #[trigger] l[i]) && l[i].blockoffset as int == bo_middle + 1 + i
+                        && l[i].fileoffset as int == (bo_middle + 1 + i) * bs && l[i].blocki_beg == 0 && (l[i].fileoffset as int) < f.len() by { if i < line0.len() { assert(l[i] == line0[i]); } }
+                    assert forall|i: int| 0 <= i < l.len() - 1 && i < l.len() implies (#[trigger] l[i]).blocki_end as int == bs by { assert(l[i] == line0[i]); }
+                    // the bytes of this block hold no newline; with the next block the scan has reached min((bof+1)*bs, fsz)
+                    assert(upto(bof as int + 1, bs, fsz) == bbase + bi_end);
+                    if bof as int == blockoffset_last as int { lemma_upto_end(f, bs); }
+                }
+//@before "if !found_nl_b && bof > blockoffset_last {"
+            proof { lemma_in_file(f, bs, blockoffset_last as int); lemma_block(f, bs, blockoffset_last as int); }
+//@after "nl_b_eof = true;" 2
+                proof {
+                    let l = line.lineparts@;
+                    assert(l.last().blockoffset as int == blockoffset_last as int);
+                    assert(s_end(l) == fsz - 1);
+                }
+//@before "if found_nl_a {" 1
+        let ghost e = fo_nl_b as int;
+        let ghost tail = line.lineparts@;
+        proof {
+            lemma_block(f, bs, bo_middle as int);
+            assert(fwd_done(tail, f, bs, bo_middle as int, fileoffset as int, e, bi_middle_end as int, nl_b_eof));
+            assert(bi_middle <= bi_middle_end < bptr_middle@.len());
+            lemma_split(bo_middle as int, bi_middle as int, bs);
+            lemma_split(bo_middle as int, 0, bs);
+        }
+//@after "line.prepend(li);" 1
+            proof { lemma_mid(line.lineparts@[0], tail, f, bs, bo_middle as int, fileoffset as int, e, bi_middle_end as int, nl_b_eof); }
+//@after "line.prepend(li);" 2
+                proof { lemma_mid(line.lineparts@[0], tail, f, bs, bo_middle as int, fileoffset as int, e, bi_middle_end as int, nl_b_eof); }
+//@after "line.prepend(li);" 3
+                    proof { lemma_mid(line.lineparts@[0], tail, f, bs, bo_middle as int, fileoffset as int, e, bi_middle_end as int, nl_b_eof); }
+//@after "let fo_nl_a_search_start: FileOffset"
+        proof { lemma_offs(fo_nl_a_search_start as int, bs); }
+//@loop 4
+                invariant_except_break
+                    !found_nl_a, no_nl(f, mbase + bi_at + 1, fileoffset as int),
+                invariant
+                    ctx(self, &sp0, f, bs, fsz), charsz_bi == 1, charsz_fo == 1, BI_STOP == 0,
+                    bptr_middle@ == fblock(f, bs, bo_middle as int), mbase == bo_middle as int * bs, mbase + bi_middle == fileoffset, mbase >= 0,
+                    bi_at < bi_middle || found_nl_a, bi_middle < bptr_middle@.len(), mbase + bptr_middle@.len() <= fsz,
+                    forall|i: int| 0 <= i < bptr_middle@.len() ==> #[trigger] bptr_middle@[i] == f[mbase + i],
+                    line.lineparts@ == tail,
+                ensures
+                    found_nl_a ==> 1 <= bi_at <= bi_middle && f[mbase + bi_at - 1] == 10u8 && fo_nl_a1 as int == mbase + bi_at && no_nl(f, mbase + bi_at, fileoffset as int),
+                    !found_nl_a ==> bi_at == 0 && no_nl(f, mbase, fileoffset as int),
+                decreases bi_at,
+//@before "let fo_: FileOffset = if found_nl_a {"
+            proof { lemma_split(bo_middle as int, bi_at as int, bs); }
+//@after "line.prepend(li);" 4
+            proof { lemma_mid(line.lineparts@[0], tail, f, bs, bo_middle as int, fileoffset as int, e, bi_middle_end as int, nl_b_eof); }
+//@after "line.prepend(li);" 5
+            proof {
+                lemma_mid(line.lineparts@[0], tail, f, bs, bo_middle as int, fileoffset as int, e, bi_middle_end as int, nl_b_eof);
+                // the byte before `fileoffset` lies in the block before the middle one: the offset is the first byte of the middle block
+                assert(bi_middle == 0) by {
+                    if bi_middle > 0 { lemma_split(bo_middle as int, bi_middle as int - 1, bs); }
+                }
+                assert(bo_middle >= 1) by { if bo_middle == 0 { assert(mbase == 0); } }
+                assert((bo_middle as int - 1) * bs + bs == mbase) by (nonlinear_arith) requires mbase == bo_middle as int * bs;
+                lemma_split(bo_middle as int - 1, bs - 1, bs);
+            }
+//@before "if !found_nl_a && begof {"
+        proof {
+            assert(parts_true(f, bs, line.lineparts@) && s_end(line.lineparts@) == e);
+            assert(found_nl_a ==> is_startpoint(f, fileoffset as int, s_beg(line.lineparts@)));
+            assert(!found_nl_a ==> s_beg(line.lineparts@) == mbase && no_nl(f, mbase, fileoffset as int) && line.lineparts@[0].blockoffset == bo_middle);
+            assert(!found_nl_a && !begof ==> bof as int == bo_middle as int - 1);
+            assert(begof ==> bo_middle == 0);
+        }
+//@loop 5
+                invariant
+                    ctx(self, &sp0, f, bs, fsz), sp0.same(old(self)), charsz_bi == 1, charsz_fo == 1, blockoffset_last as int == sp_last(fsz, bs), fsz > 0,
+                    parts_true(f, bs, line.lineparts@), s_end(line.lineparts@) == e, fileoffset < fsz, bo_middle <= blockoffset_last,
+                    found_nl_a ==> is_startpoint(f, fileoffset as int, s_beg(line.lineparts@)),
+                    !found_nl_a ==> s_beg(line.lineparts@) == (bof as int + 1) * bs && line.lineparts@[0].blockoffset as int == bof as int + 1
+                        && no_nl(f, (bof as int + 1) * bs, fileoffset as int) && bof < bo_middle && (bof as int + 1) * bs <= fileoffset as int,
+                    begof ==> found_nl_a,
+                ensures found_nl_a,
+                decreases (if found_nl_a { 0int } else { bof as int + 1 }),
+//@after "let blen: BlockIndex = bptr.len() as BlockIndex;"
+                let ghost bbase = bof as int * bs;
+                let ghost line1 = line.lineparts@;
+                proof {
+                    assert(bof as int * bs < fsz) by { lemma_in_file(f, bs, bo_middle as int); assert(bof as int * bs <= bo_middle as int * bs) by (nonlinear_arith) requires bof as int <= bo_middle as int, bs >= 1; }
+                    lemma_block(f, bs, bof as int);
+                    assert(blen as int == bs);
+                    lemma_split(bof as int, 0, bs);
+                }
+//@loop 6
+                    invariant_except_break
+                        !found_nl_a, no_nl(f, bbase + bi_at + 1, fileoffset as int), line.lineparts@ == line1,
+                    invariant
+                        ctx(self, &sp0, f, bs, fsz), charsz_bi == 1, charsz_fo == 1, BI_STOP == 0, !begof,
+                        bptr@ == fblock(f, bs, bof as int), blen as int == bs, bi_start as int == bs - 1, bi_at <= bi_start || found_nl_a, bbase == bof as int * bs, bbase >= 0,
+                        bbase + bs <= fsz, (bof as int + 1) * bs == bbase + bs, fileoffset as int >= bbase + bs,
+                        forall|i: int| 0 <= i < bptr@.len() ==> #[trigger] bptr@[i] == f[bbase + i],
+                        parts_true(f, bs, line1), s_end(line1) == e, s_beg(line1) == bbase + bs, line1[0].blockoffset as int == bof as int + 1,
+                        (bbase) / bs == bof as int, (bbase) % bs == 0,
+                    ensures
+                        found_nl_a ==> parts_true(f, bs, line.lineparts@) && s_end(line.lineparts@) == e && is_startpoint(f, fileoffset as int, s_beg(line.lineparts@)),
+                        !found_nl_a ==> bi_at == 0 && no_nl(f, bbase, fileoffset as int) && line.lineparts@ == line1,
+                    decreases bi_at,
+//@after "let bof_a1 = self.block_offset_at_file_offset(fo_nl_a1);"
+                        proof {
+                            if (bi_at as int) < bs { lemma_split(bof as int, bi_at as int, bs); }
+                            else { lemma_split(bof as int + 1, 0, bs); }
+                        }
+//@after "line.prepend(li);" 6
+                            proof { lemma_prepend(line.lineparts@[0], line1, f, bs); }
+//@after "line.prepend(li);" 8
+                proof { lemma_prepend(line.lineparts@[0], line1, f, bs); }
+//@before "let fo_end: FileOffset = line.fileoffset_end();"
+        proof {
+            assert(found_nl_a);
+            assert(good_line(f, bs, line, fileoffset as int));
+        }
+//@mutate "bi_middle_end = bi_at;" "bi_middle_end = bi_middle;"
+//@mutate "fo_nl_a1 = fo_nl_a + charsz_fo;" "fo_nl_a1 = fo_nl_a;"
+//@mutate "bi_middle_end = bi_stop - charsz_bi;" "bi_middle_end = bi_stop;"
+//@mutate "bi_at -= charsz_bi;" "bi_at -= charsz_bi; if bi_at > 0 { bi_at -= 1; }"
 //@end
 }
 /// stand-in (R9) for `counter += 1` on a u64 statistics counter: assumed not to overflow
 #[verifier::external_body]
 pub fn verif_count_inc(c: &mut Count) { unimplemented!() }
 pub fn verif_max(a: FileOffset, b: FileOffset) -> (r: FileOffset) ensures r == (if a >= b { a } else { b }) { if a >= b { a } else { b } }
+
+/// vacuity guard: the assumptions about the reader (its store invariant, the file) are satisfiable -- this must NOT verify
+pub proof fn lnr__canary(r: LineReader, k: FileOffset)
+    requires r.wf(), r.lines.has(k), r.f().len() == 100, r.bs() == 16
+    ensures false
+{}
 
 } // verus!
 fn main() {}
